@@ -146,3 +146,11 @@ impl EventHandler for Header {
         UpdateScreen::DONT_REDRAW
     }
 }
+
+#[cfg(feature = "verif")]
+impl Header {
+    /// verification accessor (add-only): the header lines as parsed by `with_options`
+    pub fn verif_lines(&self) -> &[AnsiString<'static>] {
+        &self.header
+    }
+}
